@@ -63,8 +63,8 @@ var borderExpanders = [...]expander{
 
 // var expandBorderSide = genericExpander("-width", "-color", "-style")(_expandBorderSide)
 
-func ExpandValidatePending(prop pr.KnownProp, from pr.Shortand, tokens []Token) (pr.DeclaredValue, error) {
-	props, err := expanders[from]("", from, tokens)
+func ExpandValidatePending(prop pr.KnownProp, from pr.Shortand, tokens []Token, baseUrl string) (pr.DeclaredValue, error) {
+	props, err := expanders[from](baseUrl, from, tokens)
 	if err != nil {
 		return nil, err
 	}
